@@ -59,6 +59,8 @@ type Sim struct {
 	// map order / pool
 	MapOrderOn bool
 	PoolOn     bool
+	// ParkAtMapRange makes every R1 site a park point under ModePark.
+	ParkAtMapRange bool
 	poolFree   map[*Pool][]any
 }
 
